@@ -110,7 +110,7 @@ func (c *GoCont) RunInThread(t *Thread) (next Cont, err error) {
 		return
 	}
 	if c.args != nil {
-		t.ReleaseArrSize(unsafe.Sizeof(Value{}), c.nArgs)
+		t.ReleaseArrSize(unsafe.Sizeof(Value{}), len(c.args)) // what NewGoCont required
 		t.argsPool.release(c.args)
 	}
 	t.ReleaseSize(unsafe.Sizeof(GoCont{}))
